@@ -21,8 +21,8 @@ Not modelled here (other clusters / read back from the implementation): the Kalm
 of the stored snapshots as `update_clock` sees them (after `progress_time` and earlier steering) are an
 input of `sourceMessage` (`vals`), and so are the steering calls the implementation issued (`steer`);
 which ids are candidates, whether anything may be issued at all, and the leap handling are the model's own.
-The early return of `update_clock` when a stored snapshot is newer than the message is not modelled (the
-harness keeps message times monotone).
+The early return of `update_clock` when a stored snapshot is ahead of the message IS modelled (`ahead`), with
+`state.time` tracked in whole seconds; the snapshot is stored BEFORE that test, as in the code.
 -/
 import NtpVerif.Model.Select
 
@@ -34,6 +34,11 @@ abbrev Id := Nat
 structure Entry where
   snap : Option Cand
   usable : Bool
+  /-- `last_update` of the stored snapshot (identifies WHICH measurement of the source is held) -/
+  stamp : Nat := 0
+  /-- `state.time` of the stored snapshot, in whole seconds (steps shift it by less than a second in the
+      harness's scripts; stamps are distinct integers, so comparisons with stamps are unaffected) -/
+  time : Nat := 0
 deriving Repr, DecidableEq
 
 /-- calls on `NtpClock` -/
@@ -67,7 +72,7 @@ def insert (m : List (Id × Entry)) (id : Id) (e : Entry) : List (Id × Entry) :
 def modify (m : List (Id × Entry)) (id : Id) (f : Entry → Entry) : List (Id × Entry) :=
   m.map (fun p => (p.1, if p.1 = id then f p.2 else p.2))
 
-def addSource (c : Ctrl) (id : Id) : Ctrl := { c with srcs := insert c.srcs id ⟨none, false⟩ }
+def addSource (c : Ctrl) (id : Id) : Ctrl := { c with srcs := insert c.srcs id { snap := none, usable := false } }
 def removeSource (c : Ctrl) (id : Id) : Ctrl := { c with srcs := remove c.srcs id }
 def sourceUpdate (c : Ctrl) (id : Id) (usable : Bool) : Ctrl :=
   { c with srcs := modify c.srcs id (fun e => { e with usable := usable }) }
@@ -110,19 +115,37 @@ def updateClock (cfg : Cfg) (steer : List String) (c : Ctrl) : Ctrl × Result :=
       ({ c with leap := leap, inStartup := false },
        .ok (pre ++ st ++ [Call.errorEstimateUpdate] ++ post) (some ((s :: sel).map (·.idx))))
 
-/-- `source_message` -/
-def sourceMessage (cfg : Cfg) (c : Ctrl) (id : Id) (snap : Cand) (vals : List (Id × Cand))
+/-- `source.0 = Some(message.inner)`: the message's snapshot replaces the stored one FIRST -/
+def storeMsg (m : List (Id × Entry)) (id : Id) (snap : Cand) (t : Nat) : List (Id × Entry) :=
+  modify m id (fun e => { e with snap := some snap, stamp := t, time := t })
+
+/-- `update_clock`'s first test: some stored snapshot (usable or not) is ahead of the message's time
+    (`time - sourcetime < 0`) -/
+def ahead (m : List (Id × Entry)) (t : Nat) : Bool :=
+  m.any (fun p => p.2.snap.isSome && decide (p.2.time > t))
+
+def progressEntry (t : Nat) (_k : Id) (e : Entry) : Entry :=
+  if e.snap.isSome then { e with time := t } else e
+
+/-- `progress_time(time, …)` on every stored snapshot, as far as `state.time` is concerned -/
+def progress (m : List (Id × Entry)) (t : Nat) : List (Id × Entry) :=
+  m.map (fun p => (p.1, progressEntry t p.1 p.2))
+
+/-- `source_message`: store the snapshot, then `update_clock(time)`, which returns early (no clock call, no
+    `used_sources`) when another stored snapshot is ahead of `time` -/
+def sourceMessage (cfg : Cfg) (c : Ctrl) (id : Id) (snap : Cand) (t : Nat) (vals : List (Id × Cand))
     (steer : List String) : Ctrl × Result :=
   match lookup c.srcs id with
   | none => (c, .ok [] none)                          -- "Update from non-existing source"
   | some _ =>
-    let m := modify c.srcs id (fun e => { e with snap := some snap })
-    updateClock cfg steer { c with srcs := refresh m vals }
+    let m := storeMsg c.srcs id snap t
+    if ahead m t then ({ c with srcs := m }, .ok [] none)
+    else updateClock cfg steer { c with srcs := refresh (progress m t) vals }
 
 /-! ### the wrapper's channel and loop -/
 
 inductive WMsg where
-  | source (snap : Cand) (vals : List (Id × Cand)) (steer : List String)
+  | source (snap : Cand) (t : Nat) (vals : List (Id × Cand)) (steer : List String)
   | usability (b : Bool)
   | dropped
 deriving Repr
@@ -136,7 +159,7 @@ def W.init : W := { queue := [], ctrl := Ctrl.init }
 
 /-- what the controller does with one dequeued message -/
 def dispatch (cfg : Cfg) (c : Ctrl) (id : Id) : WMsg → Ctrl × Result
-  | .source snap vals steer => sourceMessage cfg c id snap vals steer
+  | .source snap t vals steer => sourceMessage cfg c id snap t vals steer
   | .usability b => (sourceUpdate c id b, .ok [] none)
   | .dropped => (removeSource c id, .ok [] none)
 
